@@ -59,6 +59,9 @@ func genPC(rt *rapid.T, thorough bool) *PCProgram {
 	}
 	p.AckN = rapid.SliceOfN(rapid.IntRange(0, 5), 1, 4).Draw(rt, "ackn")
 	p.Yields = rapid.SliceOfN(rapid.IntRange(0, 4), 1, 6).Draw(rt, "yields")
+	if rapid.IntRange(0, 1).Draw(rt, "skipping") == 1 {
+		p.Skip = rapid.SliceOfN(rapid.SampledFrom([]int{0, 0, 1}), 1, 5).Draw(rt, "skip")
+	}
 	return p
 }
 
